@@ -8,6 +8,7 @@ import (
 	"fmt"
 	"math/rand"
 	"os"
+	"path/filepath"
 	"sort"
 	"strconv"
 	"strings"
@@ -76,7 +77,12 @@ func verifC12GenConfig(thorough, slow bool) *rapid.Generator[verifC12Config] {
 				cfg.Pebble = true
 			case 2:
 				cfg.Pebble, cfg.Kill = true, true
+			case 3:
+				cfg.Pebble, cfg.MemFS = true, true
 			}
+		} else if rapid.IntRange(0, 4).Draw(t, "storage") < 2 {
+			// the quick tier runs the Pebble raftlog too, on an in-memory file system
+			cfg.Pebble, cfg.MemFS = true, true
 		}
 		// VERIF_C12_FORCE (kill, pebble, five) pins a storage/shape class, for
 		// mutation experiments and debugging
@@ -85,7 +91,10 @@ func verifC12GenConfig(thorough, slow bool) *rapid.Generator[verifC12Config] {
 			cfg.Pebble = true
 		}
 		if strings.Contains(force, "kill") {
-			cfg.Pebble, cfg.Kill = true, true
+			cfg.Pebble, cfg.Kill, cfg.MemFS = true, true, false
+		}
+		if strings.Contains(force, "memfs") {
+			cfg.Pebble, cfg.Kill, cfg.MemFS = true, false, true
 		}
 		if strings.Contains(force, "five") {
 			cfg.Nodes = 5
@@ -123,12 +132,23 @@ func verifC12GenConfig(thorough, slow bool) *rapid.Generator[verifC12Config] {
 		cfg.Seed = int64(rapid.Uint32().Draw(t, "netSeed")) + 1
 		minority := (cfg.Nodes - 1) / 2
 		nSteps := rapid.IntRange(6, 12).Draw(t, "nSteps")
+		// most scripts hold one of the directed shapes at a drawn position; all
+		// of them can also come up through the free draw of kinds
+		directed, directedAt := "", -1
+		if rapid.IntRange(0, 7).Draw(t, "directed") != 0 {
+			directed = rapid.SampledFrom([]string{"staleLeader", "staleLeader", "voteCrash", "voteCrash", "crashWrite"}).Draw(t, "directedKind")
+			directedAt = rapid.IntRange(0, nSteps-1).Draw(t, "directedAt")
+		}
 		restarts := 0
 		for i := 0; i < nSteps; i++ {
 			st := verifC12Step{PauseMS: rapid.SampledFrom([]int{20, 60, 120, 250}).Draw(t, "pause")}
-			kind := rapid.SampledFrom([]string{"isolate", "isolate", "oneway", "split", "heal", "heal", "link", "restart", "restart", "restart", "transfer", "transfer", "compact", "pause", "isolateLeader", "isolateLeader", "restartLeader", "restartLeader", "addLearner", "removeLearner"}).Draw(t, "kind")
+			kind := rapid.SampledFrom([]string{"isolate", "isolate", "oneway", "split", "heal", "heal", "link", "restart", "restart", "restart", "transfer", "transfer", "compact", "pause", "isolateLeader", "isolateLeader", "restartLeader", "restartLeader", "addLearner", "removeLearner",
+				"staleLeader", "crashWrite", "crashWrite", "voteCrash"}).Draw(t, "kind")
 			if i == nSteps-2 && restarts == 0 {
 				kind = "restart"
+			}
+			if i == directedAt {
+				kind = directed
 			}
 			st.Kind = kind
 			switch kind {
@@ -162,6 +182,36 @@ func verifC12GenConfig(thorough, slow bool) *rapid.Generator[verifC12Config] {
 				st.Slot = rapid.IntRange(1, cfg.Slots).Draw(t, "slot")
 				st.DownMS = rapid.SampledFrom([]int{0, 30, 120, 300}).Draw(t, "down")
 				st.Unsynced = rapid.SampledFrom([]int{0, 0, 30, 100}).Draw(t, "unsynced")
+			case "staleLeader":
+				// the leader of Slot is cut off while clients still hand it K
+				// proposals; its successor takes M proposals; then the partition heals
+				st.Slot = rapid.IntRange(1, cfg.Slots).Draw(t, "slot")
+				st.K = rapid.IntRange(2, 6).Draw(t, "staleK")
+				st.M = st.K + rapid.IntRange(1, 4).Draw(t, "staleM")
+				st.OneWay = rapid.IntRange(0, 2).Draw(t, "staleOneWay") == 0
+			case "crashWrite":
+				// a minority (or the leader of Slot when Nodes is empty) is watched;
+				// the first of them to perform the Nth storage write of the class
+				// loses power there
+				restarts++
+				if rapid.IntRange(0, 2).Draw(t, "crashLeader") == 0 {
+					st.Slot = rapid.IntRange(1, cfg.Slots).Draw(t, "slot")
+				} else {
+					st.Nodes = verifC12Subset(t, cfg.Nodes, minority, "crashed")
+				}
+				st.Class = rapid.SampledFrom([]string{"any", "any", "entries", "entries", "hardstate", "applied", "applied", "snapshot", "vote"}).Draw(t, "crashClass")
+				st.Nth = rapid.IntRange(1, 12).Draw(t, "crashNth")
+				st.Before = rapid.IntRange(0, 3).Draw(t, "crashBefore") != 0
+				st.DownMS = rapid.SampledFrom([]int{0, 30, 120}).Draw(t, "down")
+				st.Unsynced = rapid.SampledFrom([]int{0, 0, 30, 100}).Draw(t, "unsynced")
+			case "voteCrash":
+				// the leader of Slot is isolated; the first replica that is about to
+				// record a vote for another candidate loses power at that write and
+				// comes back on the old leader's side of a partition
+				restarts++
+				st.Slot = rapid.IntRange(1, cfg.Slots).Draw(t, "slot")
+				st.Before = rapid.IntRange(0, 5).Draw(t, "crashBefore") != 0
+				st.DownMS = rapid.SampledFrom([]int{0, 0, 30}).Draw(t, "down")
 			}
 			if slow {
 				st.PauseMS *= 2
@@ -196,6 +246,11 @@ type verifC12Outcome struct {
 	nudges       int
 	confChanges  int
 	staleSnaps   int
+	staleSteps   int // staleLeader steps that found a leader to cut off
+	crashArmed   int // crash points armed
+	crashFired   int // crash points reached
+	voteCrashes  int // voteCrash steps whose crash point was reached
+	crashWhat    []string
 	elapsed      time.Duration
 }
 
@@ -246,6 +301,77 @@ func verifC12Run(cfg verifC12Config, settleLimit time.Duration) (out verifC12Out
 		}
 	}
 
+	// submit hands one proposal to a node like a client would and records what
+	// becomes of it; done (may be nil) is called when the future resolved
+	submit := func(target, slot int, id string, done func()) error {
+		rt := c.nodes[target-1].runtime()
+		if rt == nil {
+			return multiraft.ErrRuntimeClosed
+		}
+		fut, err := rt.Propose(ctx, multiraft.SlotID(slot), verifC12Payload(id))
+		if err != nil {
+			c.hist.add(verifC12Event{Kind: "reject", Node: target, Slot: slot, ID: id, Err: err.Error()})
+			return err
+		}
+		c.inflight.Add(1)
+		c.pending.Store(id, target)
+		wg.Add(1)
+		go func() {
+			defer wg.Done()
+			res, err := fut.Wait(ctx)
+			c.inflight.Add(-1)
+			c.pending.Delete(id)
+			if done != nil {
+				done()
+			}
+			if err != nil {
+				c.hist.add(verifC12Event{Kind: "fail", Node: target, Slot: slot, ID: id, Err: err.Error()})
+				return
+			}
+			c.hist.add(verifC12Event{Kind: "ack", Node: target, Slot: slot, ID: id, Index: res.Index, Term: res.Term, Data: string(res.Data)})
+		}()
+		return nil
+	}
+	// burst: a client hands n proposals to one node back to back; returns the accepted ids
+	burst := func(target, slot, n int, tag string) []string {
+		var ids []string
+		for i := 0; i < n; i++ {
+			id := fmt.Sprintf("s%d-%s-n%d-%d", slot, tag, target, i)
+			if submit(target, slot, id, nil) == nil {
+				ids = append(ids, id)
+			}
+		}
+		return ids
+	}
+	resolved := func(ids []string) bool {
+		for _, id := range ids {
+			if _, ok := c.pending.Load(id); ok {
+				return false
+			}
+		}
+		return true
+	}
+	tick := time.Duration(cfg.TickMS) * time.Millisecond
+	election := tick * time.Duration(cfg.ElectionTick)
+	isolate := func(a int) {
+		for b := 1; b <= cfg.Nodes; b++ {
+			if a != b {
+				c.net.block(a, b)
+				c.net.block(b, a)
+			}
+		}
+	}
+	// crashed: a node lost power at an armed storage write; bring it back
+	revive := func(node, downMS int) {
+		if err := c.nodes[node-1].reap(); err != nil && out.machinery == "" {
+			out.machinery = "close: " + err.Error()
+		}
+		time.Sleep(time.Duration(downMS) * time.Millisecond)
+		if err := c.nodes[node-1].start(); err != nil {
+			c.startFailed(node, err, &out)
+		}
+	}
+
 	// workload: one proposer per slot, unique payloads, bounded window
 	for s := 1; s <= cfg.Slots*cfg.Proposers; s++ {
 		wg.Add(1)
@@ -290,10 +416,8 @@ func verifC12Run(cfg verifC12Config, settleLimit time.Duration) (out verifC12Out
 					return
 				}
 				id := fmt.Sprintf("s%d-p%d-n%d-%d", slot, proposer, target, seq)
-				fut, err := rt.Propose(ctx, multiraft.SlotID(slot), verifC12Payload(id))
-				if err != nil {
+				if err := submit(target, slot, id, func() { <-window }); err != nil {
 					<-window
-					c.hist.add(verifC12Event{Kind: "reject", Node: target, Slot: slot, ID: id, Err: err.Error()})
 					// not the leader / busy: give the cluster a moment
 					sticky = 0
 					time.Sleep(time.Duration(cfg.TickMS) * time.Millisecond)
@@ -303,21 +427,6 @@ func verifC12Run(cfg verifC12Config, settleLimit time.Duration) (out verifC12Out
 					sticky = target
 				}
 				accepted++
-				c.inflight.Add(1)
-				c.pending.Store(id, target)
-				wg.Add(1)
-				go func() {
-					defer wg.Done()
-					res, err := fut.Wait(ctx)
-					c.inflight.Add(-1)
-					c.pending.Delete(id)
-					<-window
-					if err != nil {
-						c.hist.add(verifC12Event{Kind: "fail", Node: target, Slot: slot, ID: id, Err: err.Error()})
-						return
-					}
-					c.hist.add(verifC12Event{Kind: "ack", Node: target, Slot: slot, ID: id, Index: res.Index, Term: res.Term, Data: string(res.Data)})
-				}()
 				time.Sleep(time.Duration(cfg.GapUS/2+rng.Intn(cfg.GapUS+1)) * time.Microsecond)
 			}
 		}((s-1)%cfg.Slots+1, (s-1)/cfg.Slots+1)
@@ -408,6 +517,120 @@ func verifC12Run(cfg verifC12Config, settleLimit time.Duration) (out verifC12Out
 						}()
 					}
 				}
+			}
+		case "staleLeader":
+			// a leader is cut off while clients still hand it proposals; the
+			// rest elects a successor that commits its own commands at the same
+			// log indexes; then the partition heals and the old leader learns
+			// of the new term from the successor's messages
+			c.net.heal()
+			old, oldTerm := c.leaderOf(st.Slot)
+			if old == 0 {
+				break
+			}
+			out.staleSteps++
+			for b := 1; b <= cfg.Nodes; b++ {
+				if b != old {
+					c.net.block(old, b)
+					if !st.OneWay {
+						c.net.block(b, old)
+					}
+				}
+			}
+			stale := burst(old, st.Slot, st.K, fmt.Sprintf("x%da", stepNo))
+			next := 0
+			for deadline := time.Now().Add(4*election + 100*time.Millisecond); time.Now().Before(deadline); time.Sleep(tick) {
+				if n2, t2 := c.leaderOf(st.Slot); n2 != 0 && n2 != old && t2 > oldTerm {
+					next = n2
+					break
+				}
+			}
+			fresh := 0
+			if next != 0 {
+				ids := burst(next, st.Slot, st.M, fmt.Sprintf("x%db", stepNo))
+				fresh = len(ids)
+				for deadline := time.Now().Add(2*election + 200*time.Millisecond); !resolved(ids) && time.Now().Before(deadline); {
+					time.Sleep(tick)
+				}
+			}
+			still := false
+			if rt := c.nodes[old-1].runtime(); rt != nil {
+				if status, err := rt.Status(multiraft.SlotID(st.Slot)); err == nil {
+					still = status.Role == multiraft.RoleLeader && status.Term == oldTerm
+				}
+			}
+			c.hist.add(verifC12Event{Kind: "stale", Node: old, Slot: st.Slot, Term: oldTerm, Peer: next, IDs: stale, N: fresh, Opening: still})
+			c.net.heal()
+		case "crashWrite", "voteCrash":
+			class, slot, nth, before := st.Class, 0, st.Nth, st.Before
+			targets := st.Nodes
+			leader := 0
+			if st.Kind == "voteCrash" {
+				c.net.heal()
+				leader, _ = c.leaderOf(st.Slot)
+				if leader == 0 {
+					break
+				}
+				class, slot, nth, targets = "vote", st.Slot, 1, nil
+				for b := 1; b <= cfg.Nodes; b++ {
+					if b != leader {
+						targets = append(targets, b)
+					}
+				}
+			} else if len(targets) == 0 {
+				if leader, _ = c.leaderOf(st.Slot); leader == 0 {
+					leader = (st.Slot-1)%cfg.Nodes + 1
+				}
+				targets = []int{leader}
+			}
+			fault := verifC12NewFault(class, slot, nth, before, st.Unsynced, uint64(cfg.Seed)+uint64(stepNo*16))
+			out.crashArmed++
+			if c.inflight.Load() > 0 {
+				out.restartBusy++
+			}
+			for _, a := range targets {
+				c.nodes[a-1].fault.Store(fault)
+			}
+			wait := time.Duration(st.PauseMS)*time.Millisecond + 2*election
+			if st.Kind == "voteCrash" {
+				isolate(leader)
+				wait = 4*election + 100*time.Millisecond
+			}
+			select {
+			case <-fault.fired:
+			case <-time.After(wait):
+			}
+			fired := fault.cancel()
+			for _, a := range targets {
+				c.nodes[a-1].fault.Store(nil)
+			}
+			if !fired {
+				if st.Kind == "voteCrash" {
+					c.net.heal()
+				}
+				break
+			}
+			out.crashFired++
+			out.crashWhat = append(out.crashWhat, fault.what)
+			if st.Kind == "voteCrash" {
+				// the crashed voter comes back on the old leader's side; the
+				// candidate it was about to vote for stays on the other side
+				out.voteCrashes++
+				c.net.heal()
+				for b := 1; b <= cfg.Nodes; b++ {
+					if b != leader && b != fault.node {
+						isolateFrom := []int{leader, fault.node}
+						for _, a := range isolateFrom {
+							c.net.block(a, b)
+							c.net.block(b, a)
+						}
+					}
+				}
+			}
+			revive(fault.node, st.DownMS)
+			if st.Kind == "voteCrash" {
+				time.Sleep(3 * election)
+				c.net.heal()
 			}
 		case "compact":
 			if rt := c.nodes[st.Nodes[0]-1].runtime(); rt != nil {
@@ -588,11 +811,20 @@ func verifC12Checks() int {
 
 func verifC12Describe(cfg verifC12Config) string {
 	var sb strings.Builder
-	fmt.Fprintf(&sb, "nodes=%d slots=%d tick=%dms el=%d hb=%d prevote=%v cq=%v workers=%d trigger=%d sm=%d pebble=%v kill=%v msg=%d infl=%d applying=%d link=%+v perSlot=%d window=%d gap=%dus bias=%d proposers=%d sticky=%v seed=%d steps=",
-		cfg.Nodes, cfg.Slots, cfg.TickMS, cfg.ElectionTick, cfg.HeartbeatTick, cfg.PreVote, cfg.CheckQuorum, cfg.Workers, cfg.Trigger, cfg.SMKind, cfg.Pebble, cfg.Kill,
+	fmt.Fprintf(&sb, "nodes=%d slots=%d tick=%dms el=%d hb=%d prevote=%v cq=%v workers=%d trigger=%d sm=%d pebble=%v memfs=%v kill=%v msg=%d infl=%d applying=%d link=%+v perSlot=%d window=%d gap=%dus bias=%d proposers=%d sticky=%v seed=%d steps=",
+		cfg.Nodes, cfg.Slots, cfg.TickMS, cfg.ElectionTick, cfg.HeartbeatTick, cfg.PreVote, cfg.CheckQuorum, cfg.Workers, cfg.Trigger, cfg.SMKind, cfg.Pebble, cfg.MemFS, cfg.Kill,
 		cfg.MaxSizePerMsg, cfg.MaxInflight, cfg.MaxApplying, cfg.Link, cfg.PerSlot, cfg.Window, cfg.GapUS, cfg.LeaderBias, cfg.Proposers, cfg.Sticky, cfg.Seed)
 	for _, st := range cfg.Steps {
-		fmt.Fprintf(&sb, "[%s %v s%d down%d +%dms]", st.Kind, st.Nodes, st.Slot, st.DownMS, st.PauseMS)
+		fmt.Fprintf(&sb, "[%s %v s%d down%d +%dms", st.Kind, st.Nodes, st.Slot, st.DownMS, st.PauseMS)
+		switch st.Kind {
+		case "staleLeader":
+			fmt.Fprintf(&sb, " k%d m%d oneway=%v", st.K, st.M, st.OneWay)
+		case "crashWrite":
+			fmt.Fprintf(&sb, " %s#%d before=%v", st.Class, st.Nth, st.Before)
+		case "voteCrash":
+			fmt.Fprintf(&sb, " before=%v", st.Before)
+		}
+		sb.WriteString("]")
 	}
 	return sb.String()
 }
@@ -715,7 +947,20 @@ func TestVerifC12Replicas(t *testing.T) {
 				k.LabelIf(out.unresolved > 0, "some futures never resolved")
 				k.LabelIf(len(facts.KnownClass) > 0, "KNOWN FINDING hit: ack by a node that did not lead the entry's term")
 				k.LabelIf(j.cfg.Pebble, "pebble raftlog")
-				k.LabelIf(facts.Kills > 0, "power-loss restart (pebble crash image)")
+				k.LabelIf(j.cfg.Pebble && j.cfg.SMKind != 2 && facts.Restarts > 0, "pebble raftlog restarted under a state machine that relies on MarkApplied")
+				k.LabelIf(out.staleSteps > 0, "stale-leader step ran")
+				k.LabelIf(facts.StaleReached > 0, "cut-off leader: >=2 accepted proposals lost, successor filled their indexes with >=2 commands")
+				k.LabelIf(facts.StaleStillLeader > 0, "cut-off leader with lost proposals still led when the partition healed (deposed by a queued message)")
+				k.LabelIf(out.crashArmed > 0, "crash point armed at a storage write")
+				k.LabelIf(facts.CrashWrites > 0, "power lost at a storage write")
+				for what, n := range facts.CrashWhat {
+					k.LabelIf(n > 0, "power lost at write: "+what)
+				}
+				k.LabelIf(out.voteCrashes > 0, "voter lost power at the write of its vote, restarted on the old leader's side")
+				k.LabelIf(facts.VoteAfterRestart > 0, "a replica voted in two incarnations")
+				k.LabelIf(facts.ReplayedAfterCrash > 0, "restart after power loss resumed above the last acknowledged MarkApplied")
+				k.LabelIf(facts.MarkChecks > 0, "durable applied index compared with acknowledged MarkApplied at restart")
+				k.LabelIf(facts.Kills > facts.CrashWrites, "power-loss restart at an arbitrary instant (pebble crash image)")
 				k.LabelIf(j.cfg.Nodes == 5, "5 nodes")
 				k.Label(fmt.Sprintf("state machine flavour %d", j.cfg.SMKind))
 				col.AddExtra("c12_applies", int64(facts.Applies))
@@ -728,6 +973,11 @@ func TestVerifC12Replicas(t *testing.T) {
 				col.AddExtra("c12_leader_changes", int64(facts.LeaderChanges))
 				col.AddExtra("c12_futures_unresolved_at_end", int64(out.unresolved))
 				col.AddExtra("c12_messages", out.netSent)
+				col.AddExtra("c12_restart_promise_checks", int64(facts.DurableChecks))
+				col.AddExtra("c12_votes_observed", int64(facts.VotesSeen))
+				col.AddExtra("c12_stale_leader_shapes", int64(facts.StaleReached))
+				col.AddExtra("c12_stale_leader_shapes_deposed_by_message", int64(facts.StaleStillLeader))
+				col.AddExtra("c12_crash_points_reached", int64(facts.CrashWrites))
 				cfg, f2, el := j.cfg, facts, out.elapsed
 				k.Sample(func() any {
 					return fmt.Sprintf("%s => commands=%d acks=%d fails=%d leaderChanges=%d snapshots=%d restoresRunning=%d restarts=%d in %v",
@@ -740,6 +990,11 @@ func TestVerifC12Replicas(t *testing.T) {
 				mu.Unlock()
 			}
 		}()
+	}
+	// scripts kept in the corpus (cases that once exposed a seeded defect) run
+	// first; like every other case they are judged on the history they produce
+	for i, cfg := range verifC12CorpusScripts(t) {
+		jobs <- job{i: -1 - i, cfg: cfg}
 	}
 	for i := 0; i < runs; i++ {
 		mu.Lock()
@@ -757,6 +1012,43 @@ func TestVerifC12Replicas(t *testing.T) {
 	if failure != "" {
 		t.Fatal(failure)
 	}
+}
+
+// verifC12CorpusScripts loads corpus/C12/scripts/*.json: each file holds a
+// verifC12Config, or a saved history whose "config" is taken.
+func verifC12CorpusScripts(t *testing.T) []verifC12Config {
+	dir := os.Getenv("VERIF_CORPUS_DIR")
+	if dir == "" {
+		return nil
+	}
+	files, _ := filepath.Glob(filepath.Join(dir, "scripts", "*.json"))
+	sort.Strings(files)
+	var out []verifC12Config
+	for _, f := range files {
+		b, err := os.ReadFile(f)
+		if err != nil {
+			continue
+		}
+		var h struct {
+			Config *verifC12Config `json:"config"`
+		}
+		var cfg verifC12Config
+		if json.Unmarshal(b, &h) == nil && h.Config != nil {
+			cfg = *h.Config
+		} else if err := json.Unmarshal(b, &cfg); err != nil {
+			t.Logf("corpus script %s: %v", f, err)
+			continue
+		}
+		if cfg.Nodes < 1 || cfg.Slots < 1 || cfg.TickMS < 1 || len(cfg.Steps) == 0 {
+			t.Logf("corpus script %s: not a script", f)
+			continue
+		}
+		if cfg.Kill && !kit.Thorough() {
+			continue
+		}
+		out = append(out, cfg)
+	}
+	return out
 }
 
 func verifC12Trunc(s string) string {
